@@ -485,6 +485,13 @@ class SchedProp(Prop):
             return {"results": [of_sched(r) for r in run_backtrack(case)]}
         if kind == "construct":
             return {"accepted": of_sched(mk_sched(case["s"]))}      # ValueError = rejected
+        if kind == "scheduler":
+            # the top-level entry point; an empty search raises StopIteration, a bad index IndexError
+            from snaxc.ir.dart.scheduler import scheduler
+            kw = {} if case.get("default_checks") else {"extra_checks": mk_checks(case["checks"])}
+            if case.get("idx") is not None:
+                kw["schedule_idx"] = case["idx"]
+            return {"result": of_sched(scheduler(mk_tmpl(case["t"]), mk_sched(case["s"]), **kw))}
         if kind == "pass":
             return {"schedules": run_pass_case(case)}
         if kind == "match":
@@ -511,6 +518,9 @@ class SchedProp(Prop):
         if kind == "backtrack":
             return [{"fn": "c03.backtrack", "args": {"t": case["t"], "s": case["s"], "k": case["k"],
                                                       "checks": case["checks"], "fuel": FUEL}}]
+        if kind == "scheduler":
+            return [{"fn": "c03.backtrack", "args": {"t": case["t"], "s": case["s"], "k": 1,
+                                                      "checks": case["checks"], "fuel": FUEL}}]
         if kind == "construct":
             return [{"fn": "c03.construct", "args": {"bounds": case["s"]["bounds"], "ops": case["s"]["ops"]}}]
         if kind == "pass":
@@ -535,6 +545,15 @@ class SchedProp(Prop):
             return dict(zip(["rotate", "tile", "add_dim", "clear", "canon", "inner", "image"], vals))
         if kind == "construct":
             return vals[0]
+        if kind == "scheduler":
+            # scheduler() = first (or idx-th) element of the search, or "no schedule"
+            v = vals[0]
+            if isinstance(v, dict) and "raised" in v:
+                return v
+            idx = case.get("idx")
+            if idx is None:
+                return {"result": v[0]} if v else {"raised": "StopIteration"}
+            return {"result": v[idx]} if idx < len(v) else {"raised": "IndexError"}
         if kind == "pass":
             # every operation is scheduled on its own; an operation without any schedule makes the pass raise
             for v in vals:
@@ -553,6 +572,8 @@ class SchedProp(Prop):
             return f"{k}:raised:{impl_out['raised']}"
         if k == "pass":
             return f"pass:{case['acc']}:{len(case['ops'])} ops"
+        if k == "scheduler":
+            return "scheduler:returned" + ("" if case.get("idx") is None else ":idx")
         if k == "backtrack":
             n = len(impl_out["results"])
             return f"backtrack:{'0' if n == 0 else '1' if n == 1 else '2-9' if n < 10 else '10+'} results"
